@@ -48,6 +48,7 @@ func (m *Machine) ufBytes(name string, in []Value, outBytes int) []Value {
 		for i, b := range sum {
 			out[i] = uint64(b)
 		}
+		m.hashLinkConcrete(name, cb, out)
 		return out
 	}
 	args := make([]*Term, len(in))
@@ -59,12 +60,15 @@ func (m *Machine) ufBytes(name string, in []Value, outBytes int) []Value {
 		out[j] = m.tf.UF(fmt.Sprintf("%s_%d_%d", name, len(in), j), 8, args...)
 	}
 	m.res.Notes[name+" modelled as an uninterpreted function of the input bytes (per input length)"] = true
+	m.hashLinkSymbolic(name, args, out)
 	return out
 }
 
 func (m *Machine) crcOf(in []Value) Value {
 	if cb, ok := allConcrete(in); ok {
-		return uint64(crc32.ChecksumIEEE(cb))
+		r := uint64(crc32.ChecksumIEEE(cb))
+		m.hashLinkConcrete("crc32", cb, []Value{r})
+		return r
 	}
 	args := make([]*Term, len(in))
 	for i, x := range in {
@@ -76,6 +80,7 @@ func (m *Machine) crcOf(in []Value) Value {
 		m.crcOrigin = map[*Term][]Value{}
 	}
 	m.crcOrigin[t] = append([]Value(nil), in...)
+	m.hashLinkSymbolic("crc32", args, []Value{t})
 	return t
 }
 
